@@ -72,7 +72,7 @@ def main():
                 plist = ["C%02d" % k for k in range(1, 20)]
             for p in plist:
                 env = dict(ENV, VERIF_REPO=scratch, VERIF_BUDGET_S=str(budget), VERIF_SEED=os.environ.get("VERIF_SEED", "1"),
-                           VERIF_EVIDENCE_DIR="/tmp/seedeval_evidence", VERIF_REPLAY_DIR="/tmp/seedeval_replays")
+                           VERIF_EVIDENCE_DIR="/tmp/seedeval_evidence_%d" % os.getpid(), VERIF_REPLAY_DIR="/tmp/seedeval_replays_%d" % os.getpid())
                 t0 = time.time()
                 rc, out = sh("./check %s --tier quick" % p, cwd=VERIF, env=env, timeout=3600)
                 lines = [l for l in out.splitlines() if l.startswith("violation:") or l.startswith("VIOLATION") or l.startswith("OK ") or l.startswith("INFRA")]
@@ -102,7 +102,7 @@ def main():
             print("  ", p, d["exit"], d["lines"][:1])
     finally:
         sh("git -C /repo worktree remove --force %s" % scratch)
-        sh("rm -rf %s" % scratch)
+        sh("rm -rf %s /tmp/seedeval_evidence_%d /tmp/seedeval_replays_%d" % (scratch, os.getpid(), os.getpid()))
     return 0
 
 
